@@ -190,7 +190,7 @@ func TestC27_AccessControl(t *testing.T) {
 	oldTokenKnown := hx.IsKnown("C27", "csrf-superseded-token")
 	hx.Check(t, "C27", 6000, 400000, func(t *rapid.T) {
 		var c c27Config
-		c.Host = rapid.SampledFrom([]string{"127.0.0.1:6420", "127.0.0.1:6420", "localhost:6420", "203.0.113.7:6420", "0.0.0.0:6420"}).Draw(t, "host")
+		c.Host = rapid.SampledFrom([]string{"127.0.0.1:6420", "127.0.0.1:6420", "localhost:6420", "203.0.113.7:6420", "0.0.0.0:6420", "127.0.0.2:6420", "127.8.8.8:6420"}).Draw(t, "host")
 		for _, w := range []string{"wallet.example.com", "lan.example.org:8080"} {
 			if rapid.IntRange(0, 3).Draw(t, "wl") == 0 {
 				c.Whitelist = append(c.Whitelist, w)
